@@ -115,6 +115,68 @@ def _is_int_cast(mod, ex):
             return True
     return False
 
+def input_dtype_buffers(ctx, chk, rule, modules, key_prefix, why):
+    """Zero expected: a buffer for computed values is not given the dtype of the input (`dtype=x.dtype` with x an argument, an
+    element of an argument, or `np.asarray` of one).  Crossing positions, means and integrals are real numbers whatever the
+    input holds: with integer abscissae (UNIX epochs, a sample index) they are truncated toward zero when stored."""
+    def find(fnode):
+        out = []
+        params = {a.arg for a in fnode.args.posonlyargs + fnode.args.args + fnode.args.kwonlyargs}
+        # names that are (elements of / arrays of) the arguments
+        derived = set(params)
+        for _r in range(4):
+            for n in ast.walk(fnode):
+                tg, val = None, None
+                if isinstance(n, ast.Assign) and len(n.targets) == 1:
+                    tg, val = n.targets[0], n.value
+                elif isinstance(n, (ast.For, ast.comprehension)):
+                    tg, val = n.target, n.iter
+                if tg is None:
+                    continue
+                core = val
+                for _h in range(4):
+                    if isinstance(core, ast.Call) and core.args and ((isinstance(core.func, ast.Attribute) and core.func.attr in ("asarray", "array", "asanyarray", "items", "values"))
+                                                                      or (isinstance(core.func, ast.Name) and core.func.id in ("enumerate", "zip", "list", "tuple", "iter"))):
+                        core = core.args[0] if core.args else core.func.value
+                    elif isinstance(core, ast.Call) and isinstance(core.func, ast.Attribute) and core.func.attr in ("items", "values") and not core.args:
+                        core = core.func.value
+                    elif isinstance(core, ast.Subscript):
+                        core = core.value
+                    else:
+                        break
+                srcs = [core] if not isinstance(core, (ast.Tuple, ast.List)) else list(core.elts)
+                if any(isinstance(x, ast.Name) and x.id in derived for src in srcs for x in ast.walk(src) if isinstance(src, ast.AST)):
+                    for x in ast.walk(tg):
+                        if isinstance(x, ast.Name):
+                            derived.add(x.id)
+        for c in ast.walk(fnode):
+            if isinstance(c, ast.Call):
+                for k in c.keywords:
+                    if k.arg == "dtype" and isinstance(k.value, ast.Attribute) and k.value.attr == "dtype" and isinstance(k.value.value, ast.Name) \
+                            and k.value.value.id in derived:
+                        nm = c.func.attr if isinstance(c.func, ast.Attribute) else (c.func.id if isinstance(c.func, ast.Name) else "")
+                        if nm in ("fromiter", "array", "asarray", "empty", "zeros", "ones", "full", "empty_like", "zeros_like", "full_like", "astype"):
+                            out.append((c, k.value))
+        return out
+    n = 0
+    for modname in modules:
+        m = ctx.repo.modules.get(modname)
+        if m is None:
+            continue
+        for q, fi in sorted(m.functions.items()):
+            if ".<locals>." in q:
+                continue
+            n += 1
+            for c, d in find(fi.node):
+                chk.ob(rule, False, where_of(fi, c), "%s: computed values are stored in the dtype of the input (%s)" % (ast.unparse(c)[:70], ast.unparse(d)),
+                       "a floating-point buffer for computed positions / means, whatever the dtype of the series passed in",
+                       key="%s|input-dtype-buffer|%s" % (key_prefix, q), why=why, local=True)
+    ctl = ast.parse("def f(series):\n    for t, y in series:\n        t = np.asarray(t)\n        v = np.fromiter(g(t, y), dtype=t.dtype)\n        w = np.fromiter(g(t, y), dtype=float)\n")
+    if len(find(ctl.body[0])) != 1:
+        chk.errors.append("%s positive control (input-dtype buffer) did not match" % rule)
+    chk.count("%s functions scanned for buffers in the dtype of the input" % key_prefix, n)
+
+
 def run(ctx, chk, tier="quick"):
     chk.explanation = (
         "API resolution of regrid.py / fit_offsets.py against the installed numpy / scipy; "
@@ -125,6 +187,8 @@ def run(ctx, chk, tier="quick"):
     )
     chk.assumptions = ["scipy.optimize.brentq finds the root within its default tolerance",
                        "scipy.interpolate.interp1d(kind='linear') is the straight-line interpolant"]
+    input_dtype_buffers(ctx, chk, "C12.O5", ("regrid", "fit_offsets"), "crossings",
+                        "crossing positions lie between the samples: with integer abscissae (int64 epochs, a sample index) every position, and the per-level mean built from them, is truncated toward zero, so the reported crossing is not where the interpolant equals the level")
     n = api_obligations(ctx, chk, "C12.O1", ["regrid", "fit_offsets"])
     chk.floor("library attribute chains resolved in regrid.py, fit_offsets.py", n, 12)
     if chk.counters.get("api_chains_resolved", 0) == n:
